@@ -72,6 +72,15 @@ def install_canaries():
   with open(os.path.join(d, 'verif_canary_unimported.py'), 'w') as f:
     f.write("import sys\nsys.modules['verif_canary'].IMPORTED.append(__name__)\n"
             "def fire(*a):\n  sys.modules['verif_canary'].CALLS.append(('unimported.fire', a))\n")
+  # a package (not yet imported) with a sub-module: a reference to verif_canary_pkg.inner.X must not even run the
+  # package's __init__
+  pk = os.path.join(d, 'verif_canary_pkg')
+  os.makedirs(pk, exist_ok=True)
+  with open(os.path.join(pk, '__init__.py'), 'w') as f:
+    f.write("import sys\nsys.modules['verif_canary'].IMPORTED.append(__name__)\n")
+  with open(os.path.join(pk, 'inner.py'), 'w') as f:
+    f.write("import sys\nsys.modules['verif_canary'].IMPORTED.append(__name__)\n"
+            "def fire(*a):\n  sys.modules['verif_canary'].CALLS.append(('pkg.inner.fire', a))\n")
   sys.path.append(d)
   import copyreg
   for code, (m, n) in ((240, ('verif_canary', 'fire')), (60000, ('verif_canary', 'Bomb')), (70000, ('os', 'system'))):
@@ -175,6 +184,7 @@ def min_proto(route):
 
 CANARY_TARGETS = [
   ('verif_canary', 'fire'), ('verif_canary', 'Bomb'), ('verif_canary', 'Sub.fire2'), ('verif_canary_unimported', 'fire'),
+  ('verif_canary_pkg.inner', 'fire'), ('verif_canary_pkg', 'inner.fire'),
   ('os', 'system'), ('os.path', 'join'), ('os', 'path.join'), ('builtins', 'eval'), ('builtins', 'getattr'),
   ('builtins', 'object'), ('__builtin__', 'eval'), ('__builtin__', 'object'), ('copy_reg', '_reconstructor'),
   ('copy_reg', 'add_extension'), ('copyreg', '_reconstructor'), ('subprocess', 'Popen'), ('posix', 'system'),
@@ -207,6 +217,8 @@ def judge_payload(ctx, case, payload, expect_reject, b, canary, label):
   del canary.IMPORTED[:]
   del _state['events'][:]
   sys.modules.pop('verif_canary_unimported', None)
+  sys.modules.pop('verif_canary_pkg', None)
+  sys.modules.pop('verif_canary_pkg.inner', None)
   results = []
   _state['armed'] = True
   saved_stderr = sys.stderr
@@ -245,7 +257,8 @@ def judge_payload(ctx, case, payload, expect_reject, b, canary, label):
   if canary.CALLS:
     ctx.fail('C13:canary-called', '%s: payload invoked %r' % (label, canary.CALLS[:3]), c, 'no-call')
     return False
-  if canary.IMPORTED or 'verif_canary_unimported' in sys.modules or any(e[0] == 'import' for e in _state['events']):
+  if canary.IMPORTED or 'verif_canary_unimported' in sys.modules or 'verif_canary_pkg' in sys.modules or any(
+      e[0] == 'import' for e in _state['events']):
     ctx.fail('C13:module-imported', '%s: payload made the daemon import %r' % (
       label, canary.IMPORTED or [e for e in _state['events'] if e[0] == 'import']), c, 'no-import')
     return False
